@@ -480,6 +480,14 @@ def check_dask(case, ctx: Ctx):
 
     w = case["w"]
     data = [x * w for x in case["xs"]]
+    for i in case.get("nan_at", []):
+        if data:
+            data[i % len(data)] = float("nan")
+    if case.get("nan_run") and len(data) >= 3:
+        k = case["nan_run"] % (len(data) - 1)
+        data[k] = data[k + 1] = float("nan")  # neighbouring NaN: whole chunks can be NaN-only
+    if case["d"] != 1:
+        data = [0.0 if x != x else x for x in data]
     arr = np.array(data, dtype=float)
     sizes = [s for s in case["chunks"] if s > 0]
     tot = sum(sizes)
@@ -509,6 +517,8 @@ def check_dask(case, ctx: Ctx):
     a, b = snapshot(ref, stats=False, meta=False), snapshot(got, stats=False, meta=False)
     require(snap_equal(a, b), "dask_differs", lambda: snap_diff(a, b))
     ctx.label(f"chunks{min(len(sizes), 5)}", f"d{case['d']}")
+    if any(x != x for x in data):
+        ctx.label("with_nan")
     ctx.nt(len(sizes) >= 3)
 
 
@@ -516,7 +526,8 @@ def check_dask(case, ctx: Ctx):
 def dask_cases(draw, tier="quick"):
     n = draw(st.integers(1, 30))
     return {"w": draw(st.sampled_from([0.5, 1.0, 0.25, 2.5, 0.1])), "xs": draw(st.lists(st.one_of(st.integers(-15, 15).map(float), st.floats(-15, 15, allow_nan=False)), min_size=n, max_size=n)),
-            "chunks": draw(st.lists(st.integers(1, 10), min_size=1, max_size=6)), "d": draw(st.sampled_from([1, 1, 2])), "method": draw(st.sampled_from([None, "thread"]))}
+            "chunks": draw(st.lists(st.integers(1, 10), min_size=1, max_size=6)), "d": draw(st.sampled_from([1, 1, 2])), "method": draw(st.sampled_from([None, "thread"])),
+            "nan_at": draw(st.lists(st.integers(0, 40), max_size=3)), "nan_run": draw(st.one_of(st.none(), st.integers(0, 40)))}
 
 
 FINDINGS = []
@@ -526,5 +537,5 @@ SUBS = [
     Sub("containers_nd", lambda tier: cases_nd(tier), check_nd, quick=400, thorough=2500),
     Sub("refusals", lambda tier: refusal_cases(tier), check_refusals, quick=100, thorough=500),
     Sub("conversions", lambda tier: conversion_cases(tier), check_conversions, quick=500, thorough=2000),
-    Sub("dask", lambda tier: dask_cases(tier), check_dask, quick=60, thorough=600),
+    Sub("dask", lambda tier: dask_cases(tier), check_dask, quick=120, thorough=800),
 ]
